@@ -228,7 +228,9 @@ static void lx_end(void *ctx, const xmlChar *local, const xmlChar *prefix, const
 static void lx_chars(void *ctx, const xmlChar *s, int len)
 {
     (void)ctx;
-    put_chars(s, len < 0 ? 0 : (size_t)len);
+    /* an empty CDATA section is reported as an empty block: no character information item */
+    if (len <= 0) return;
+    put_chars(s, (size_t)len);
 }
 static void lx_silent(void *ctx, const char *msg, ...) { (void)ctx; (void)msg; }
 static void lx_serror(void *ctx, xmlErrorPtr e) { (void)ctx; (void)e; }
